@@ -36,7 +36,7 @@ META = {
     "technique": "Coq proof over hand model + structural differential with real sha256 + history-enumeration exploration",
 }
 
-FORMATS = ["bytecode", "bytecode_runtime", "abi", "layout", "metadata", "method_identifiers", "asm", "integrity"]
+FORMATS = ["bytecode", "bytecode_runtime", "abi", "layout", "metadata", "method_identifiers", "asm", "ir", "integrity"]
 CFGS = [{"venom": False, "level": "gas"}, {"venom": True, "level": "gas"}, {"venom": True, "level": "O3"},
         {"venom": False, "level": "codesize"}]
 
@@ -333,14 +333,17 @@ def part_histories(ctx, root):
         for c in cfgs:
             j3.append(job(p, c, FORMATS))
     sessions.append(("s3", rnd.randrange(1, 2 ** 32), j3))
+    # S4: every format requested alone (fresh CompilerData each), seed 3
+    sessions.append(("s4", 3, [job(p, c, [f]) for p in progs for c in cfgs for f in FORMATS]))
     if ctx.tier == "thorough":
         for k in range(4):
             sh = progs[:]
             rnd.shuffle(sh)
-            sessions.append((f"s{4 + k}", rnd.randrange(1, 2 ** 32), [job(p, c, rnd.sample(FORMATS, len(FORMATS))) for p in sh for c in cfgs]))
+            sessions.append((f"s{5 + k}", rnd.randrange(1, 2 ** 32), [job(p, c, rnd.sample(FORMATS, len(FORMATS))) for p in sh for c in cfgs]))
     with ThreadPoolExecutor(max_workers=3) as ex:
         results = list(ex.map(lambda s: run_session(root, s[2], s[1], s[0]), sessions))
     ref = {}
+    mismatches = collections.Counter()
     compared = 0
     compilations = 0
     for (tag, hs, jobs), res in zip(sessions, results):
@@ -358,15 +361,22 @@ def part_histories(ctx, root):
                 else:
                     compared += 1
                     if ref[(key, fmt)][0] != val:
+                        mismatches[fmt] += 1
+                        if mismatches[fmt] > 1:
+                            continue
                         v0, tag0, hs0, i0 = ref[(key, fmt)]
                         files = CORPUS[jb["prog"]]["files"]
                         ctx.violation("failing-input", f"output `{fmt}` of the same input differs between two process histories",
                                       {"program": jb["prog"], "files": files, "config": jb["cfg"], "format": fmt,
-                                       "run_a": {"session": tag0, "PYTHONHASHSEED": hs0, "job_index": i0, "value": v0},
+                                       "run_a": {"session": tag0, "PYTHONHASHSEED": hs0, "job_index": i0, "value": v0,
+                                                 "formats_requested": sessions[[s[0] for s in sessions].index(tag0)][2][i0]["formats"]},
                                        "run_b": {"session": tag, "PYTHONHASHSEED": hs, "job_index": i, "value": val,
-                                                 "jobs_before": jobs[:i][-4:]}},
+                                                 "formats_requested": jb["formats"], "jobs_before": jobs[:i][-4:]},
+                                       "note": "known minimal replay for `metadata`: compile_code(src_with___init__, output_formats=['metadata'], "
+                                               "settings=Settings(experimental_codegen=True)) vs output_formats=['bytecode','metadata']: "
+                                               "function_id of __init__ is 1 vs 0"},
                                       key=f"C18:nondeterministic:{fmt}")
-                        return compilations, compared
+    ctx.corr["history_mismatches"] = dict(mismatches)
     ctx.corr["history_sessions"] = len(sessions)
     ctx.corr["history_compilations"] = compilations
     ctx.corr["history_comparisons"] = compared
@@ -494,7 +504,7 @@ def part_bundles(ctx, root, tmp):
     try:
         with warnings.catch_warnings():
             warnings.simplefilter("ignore")
-            compile_code(json.dumps(CORPUS["with_layout"]["layout"]), output_formats=["integrity"])
+            compile_code(json.dumps(CORPUS["with_layout"]["layout"]), output_formats=["bytecode"])
         stats["override_text_is_a_module"] += 1
     except VyperException:
         stats["override_text_rejected_as_module"] += 1
